@@ -103,12 +103,26 @@ func (t *recTransport) isClosed() bool {
 	return t.closed
 }
 
-// connectRec connects c over tr with an accepting CONNACK already queued, and forgets the
-// CONNECT bytes.
+// connectRec connects c over tr; the accepting CONNACK is fed when the CONNECT packet has been
+// written (a broker cannot answer earlier, and the library drops a CONNACK that arrives before
+// Connect has registered its channel). The CONNECT bytes are forgotten afterwards.
 func connectRec(c *mqtt.BaseClient, tr *recTransport, opts ...mqtt.ConnectOption) (bool, error) {
-	tr.feed(specConnAck(false, 0))
+	tr.mu.Lock()
+	prev := tr.onWrite
+	fed := false
+	tr.onWrite = func(p []byte) {
+		tr.mu.Lock()
+		first := !fed
+		fed = true
+		tr.mu.Unlock()
+		if first {
+			tr.feed(specConnAck(false, 0))
+		}
+	}
+	tr.mu.Unlock()
 	sp, err := c.Connect(context.Background(), "cid", opts...)
 	tr.mu.Lock()
+	tr.onWrite = prev
 	tr.out = nil
 	tr.writes = nil
 	tr.mu.Unlock()
